@@ -122,7 +122,7 @@ class TransactionMonitor(Monitor):
 
     # ---- executions
     def on_exec_before(self, pkg):
-        self.exec_pre = {o._vid: (len(o.responses.cancel_responses), len(o.responses.update_responses)) for o in pkg._orders}
+        self.exec_pre = {o._vid: (len(o.responses.cancel_responses), len(o.responses.update_responses), o.status.name if o.status else None) for o in pkg._orders}
         self.exec_created = []
 
     def on_order_created(self, order):
@@ -139,16 +139,18 @@ class TransactionMonitor(Monitor):
             n = len(orders)
         elif kind == "CANCEL":
             for o in orders:
-                c0 = self.exec_pre.get(o._vid, (0, 0))[0]
+                c0 = self.exec_pre.get(o._vid, (0, 0, None))[0]
                 n += sum(1 for r in o.responses.cancel_responses[c0:] if r.status == "FAILURE")
         elif kind == "UPDATE":
             for o in orders:
-                u0 = self.exec_pre.get(o._vid, (0, 0))[1]
+                u0 = self.exec_pre.get(o._vid, (0, 0, None))[1]
                 n += sum(1 for r in o.responses.update_responses[u0:] if r.status == "FAILURE")
         elif kind == "REPLACE":
+            # replacement instructions submitted: orders that had not completed when the package was executed
+            orders = [o for o in orders if self.exec_pre.get(o._vid, (0, 0, None))[2] != "EXECUTION_COMPLETE"]
             n = len(orders)
             for o in orders:
-                c0 = self.exec_pre.get(o._vid, (0, 0))[0]
+                c0 = self.exec_pre.get(o._vid, (0, 0, None))[0]
                 n += sum(1 for r in o.responses.cancel_responses[c0:] if r.status == "FAILURE")
         sh.total += n
         if sh.hour is not None:
